@@ -148,14 +148,30 @@ Theorem C19_choice_all_listed_iff :
 Proof. exact choice_all_listed_iff. Qed.
 Print Assumptions C19_choice_all_listed_iff.
 
-(* the faithful model of PolyAssignment.__init__ accepts every vector: "invalid probability
-   vectors are rejected" is false of it (witness x = 1 {3/2} 2) *)
-Theorem C19_invalid_probs_accepted_refuted :
+(* PolyAssignment.__init__ since /repo commit 626892e (all probabilities numbers => each in [0,1] and
+   sum 1, else RuntimeError): the constructor accepts a constant vector iff the choice is a probability law *)
+Theorem C19_repaired_constructor_accepts_iff_valid :
+  forall law x (ps : list Qc) (es : list expr) (s : state), length es = length ps ->
+    (poly_assignment_init x es (map EConst ps) <> None <->
+     is_prob_law (sample law (RChoice (const_alts ps es)) s)).
+Proof. exact repaired_constructor_accepts_iff_valid. Qed.
+Print Assumptions C19_repaired_constructor_accepts_iff_valid.
+
+(* with the last probability omitted (the parser fills in 1 - sum): accepted iff listed >= 0 and sum <= 1 *)
+Theorem C19_repaired_constructor_implicit_last :
+  forall x (ps : list Qc) (es : list expr),
+    (poly_assignment_init x es (map EConst (ps ++ [1 - qsum ps])) <> None <-> valid_probs ps).
+Proof. exact repaired_constructor_implicit_last. Qed.
+Print Assumptions C19_repaired_constructor_implicit_last.
+
+(* the OLD rule (no validation, before 626892e) accepted every vector: "invalid probability vectors are
+   rejected" is false of it (witness x = 1 {3/2} 2); kept as the regression witness *)
+Theorem C19_invalid_probs_accepted_old_rule_refuted :
   ~ (forall x ps es e st, length es = length ps ->
-       poly_assignment_init x (es ++ [e]) (map EConst ps ++ [one_minus (map EConst ps)]) = Some st ->
+       poly_assignment_init_old x (es ++ [e]) (map EConst ps ++ [one_minus (map EConst ps)]) = Some st ->
        valid_probs ps).
-Proof. exact invalid_probs_accepted_refuted. Qed.
-Print Assumptions C19_invalid_probs_accepted_refuted.
+Proof. exact invalid_probs_accepted_old_rule_refuted. Qed.
+Print Assumptions C19_invalid_probs_accepted_old_rule_refuted.
 
 (* ---- non-vacuity / precedence samples (tests, by vm_compute) ------------------------------------ *)
 Open Scope string_scope.
